@@ -583,9 +583,9 @@ impl Check for C17 {
     }
     fn plan(&self, tier: Tier) -> Plan {
         Plan {
-            cases: if tier == Tier::Quick { 160 } else { 4000 },
+            cases: if tier == Tier::Quick { 3200 } else { 32_000 },
             max_tape: 40,
-            shard_cases: if tier == Tier::Quick { 10 } else { 50 },
+            shard_cases: if tier == Tier::Quick { 100 } else { 400 },
             max_shrink_iters: 300,
             shard_timeout_s: 900,
             ..Plan::default()
@@ -910,11 +910,11 @@ impl Check for C18 {
     }
     fn plan(&self, tier: Tier) -> Plan {
         Plan {
-            cases: if tier == Tier::Quick { 4000 } else { 120_000 },
+            cases: if tier == Tier::Quick { 24_000 } else { 240_000 },
             max_tape: 10,
             min_slots: 5,
             max_slots: 41,
-            shard_cases: if tier == Tier::Quick { 250 } else { 2500 },
+            shard_cases: if tier == Tier::Quick { 1500 } else { 5000 },
             max_shrink_iters: 3000,
             ..Plan::default()
         }
